@@ -281,7 +281,7 @@ Definition step (ha : bool) (s : sys) (x : op) : sys * obs :=
   | ODestroy =>
       if live s && (match out s with None => true | Some _ => false end) then
         (* ~generator -> handle.destroy(): the frame's live locals are destroyed youngest first, the frame is freed *)
-        let s1 := set_live (set_frame s [] [] (cur s) (bst s)) false true in
+        let s1 := set_live (set_frame s (pc s) [] (cur s) (bst s)) false true in
         (s1, mkObs 0 RNone (done_flag s1) 0 1 (map EDtor (gds s)))
       else (s, rejected)
   | OPeek =>
